@@ -28,6 +28,16 @@ FORMATS = [
 ]
 
 
+class _Holes(list):
+    """hole names in order of appearance; index() of a hole that was not written gives -1 (reported as a mismatch)."""
+
+    def index(self, name, *a):
+        try:
+            return list.index(self, name, *a)
+        except ValueError:
+            return -1
+
+
 def render(template, holes):
     """Template -> concrete text; each hole becomes a unique word placeholder.  Returns (text, {hole name: (lo, hi)})."""
     out = []
@@ -88,7 +98,7 @@ def run(P: Program, rep: Report):
                 if kind == "raise":
                     rep.fail("C05.R1", f"write-raises:{cfg}", common.raise_site(P, out) or ws.loc, f"write_string raises {out.cls_name()} ({cfg})")
                     continue
-                holes = []
+                holes = _Holes()
                 if not isinstance(out, (Template, str, Hole)):
                     rep.fail("C05.R1", f"opaque-output:{cfg}", ws.loc, f"write_string's result is not a text built from the library's content and constants: {out!r}")
                     continue
@@ -209,6 +219,12 @@ def run(P: Program, rep: Report):
                 a = v[0][1]
                 ok = a.get("_default_enclosing") == "{" and a.get("_reuse_previous_enclosing") is False and a.get("_enclose_integers") is True and a.get("_allow_inplace_modification") is False
             rep.check(ok, "C05.R2", f"{fname}", f.loc, f"{fname}() is {v!r}")
+
+    rep.rule("C05.R4", "the parse stack hands the writer the value text verbatim: removing the enclosing returns exactly the text "
+                       "between the delimiters (no inner stripping or rewriting), so re-enclosing it reproduces a value the reader "
+                       "tokenises the same way (same strip table as C10.R2)")
+    from .c10 import strip_table
+    strip_table(P, rep, "C05.R4")
 
     rep.rule("C05.R3", "writer determinism: the writer and its serialisers read only their arguments and module constants (no "
                        "global / nonlocal state, no clock, randomness, environment or I/O), so writing equal libraries gives equal text")
